@@ -6,7 +6,7 @@
    infinite sum for a cut potential (both are monitored on every run; the latter fails in very flat
    cells - known finding D14). *)
 From Coq Require Import ZArith List Bool Reals. Import ListNotations.
-From PV Require Import Num NumR model.Geom proofs.LatticeFacts proofs.SiteFacts proofs.OverlapFacts proofs.PackingFacts proofs.LJFacts proofs.RedescribeFacts proofs.LatticeSumFacts.
+From PV Require Import Num NumR model.Geom proofs.LatticeFacts proofs.SiteFacts proofs.OverlapFacts proofs.PackingFacts proofs.LJFacts proofs.RedescribeFacts proofs.LatticeSumFacts proofs.OriginShift.
 
 Theorem C03_lj_sum_formula :
   forall st : ljstateR, lj_sum NumR rpowi st = (incell_sum st + / 2 * image_sum st)%R.
@@ -79,4 +79,36 @@ Theorem C03_outside_three_no_energy :
     (l_cell NumR st) p2 n m)) (l_shape NumR st)) = 0%R.
 Proof. exact outside_three_no_energy. Qed.
 Print Assumptions C03_outside_three_no_energy.
+
+Theorem C03_lj_score_origin_shift :
+  forall (st st' : ljstateR) (h : R * R) (X rho : R), l_cell NumR st' = l_cell NumR st ->
+    l_shape NumR st' = l_shape NumR st -> like (l_shape NumR st) -> lj_wf st X rho -> lj_wf st'
+    X rho -> Forall2 (fun p p' : tfR => exists dx dy : Z, moved h p p' dx dy) (lj_relative NumR
+    st) (lj_relative NumR st') -> lj_score NumR rpowi st' = lj_score NumR rpowi st.
+Proof. exact lj_score_origin_shift. Qed.
+Print Assumptions C03_lj_score_origin_shift.
+
+Theorem C03_lj_score_moved_origin :
+  forall (st : ljstateR) (h : R * R) (X rho : R), let st' := @mkLjstate NumR (l_syms NumR st)
+    (@mkSite NumR (s_x NumR (l_site NumR st) + @fst R R h)%R (s_y NumR (l_site NumR st) + @snd R
+    R h)%R (s_cos NumR (l_site NumR st)) (s_sin NumR (l_site NumR st))) (l_cell NumR st)
+    (l_shape NumR st) in like (l_shape NumR st) -> lj_wf st X rho -> lj_wf st' X rho -> (forall
+    sym : tfR, @In tfR sym (l_syms NumR st) -> fixes_mod_lattice sym h) -> lj_score NumR rpowi
+    st' = lj_score NumR rpowi st.
+Proof. exact lj_score_moved_origin. Qed.
+Print Assumptions C03_lj_score_moved_origin.
+
+Theorem C03_half_vectors_are_fixed :
+  forall (sym : tfR) (u v : Z), a00 NumR sym = 1%R \/ a00 NumR sym = (-1)%R -> a11 NumR sym =
+    1%R \/ a11 NumR sym = (-1)%R -> a01 NumR sym = 0%R -> a10 NumR sym = 0%R ->
+    fixes_mod_lattice sym ((IZR u / 2)%R, (IZR v / 2)%R).
+Proof. exact half_vectors_are_fixed. Qed.
+Print Assumptions C03_half_vectors_are_fixed.
+
+Theorem C03_score_through_total :
+  forall (st : ljstateR) (X rho : R), lj_wf st X rho -> like (l_shape NumR st) -> forall k : Z,
+    (3 <= k)%Z -> lj_score NumR rpowi st = Some (- (/ 2 * Tot (l_cell NumR st) (l_shape NumR st)
+    (lj_relative NumR st) k) / INR (length (l_syms NumR st)))%R.
+Proof. exact score_through_total. Qed.
+Print Assumptions C03_score_through_total.
 
